@@ -50,23 +50,59 @@ def convert_with(mods, text, **kw):
 
 
 def run_order_case(name, kw):
-    """explore every iteration order the explorer can choose; all outputs must coincide"""
-    text = concrete_doc(name)
-    outs = {}
-    n_paths = [0]
+    """Explore iteration orders one iteration event at a time: event k (the k-th time a set
+    with >= 2 elements is iterated, module import included) takes every order the explorer
+    offers while all other sets iterate in insertion order.  Baseline and permuted conversion
+    run inside ONE symbolic path on the template with symbolic numbers, so the comparison is
+    'for all numbers: same structure, numbers provably equal' (SMT validity per path)."""
+    from checks import outcheck
 
-    def harness(ctx):
-        mods = loader.load(fake_skia=False)  # real Skia: numbers are concrete here
-        try:
-            out = convert_with(mods, text, **kw)
-        finally:
-            loader.unload(mods)
-        n_paths[0] += 1
-        outs.setdefault(out, list(ctx.decisions))
-        return out
+    template = pool.family_templates("thorough")[name] if not name.startswith("unsupported:") else pool.UNSUPPORTED[name.split(":", 1)[1]]
+    stats = {"paths": 0, "queries": 0, "solver_s": 0.0, "checks": 0, "failures": [], "inconclusive": [], "events": 0, "unknown": 0}
+    opts = dict(PIPE_OPTS)
+    opts.update({"set_order": "symbolic", "tol_cut": True})
 
-    st = C.explore(harness, opts={"set_order": "symbolic"}, max_paths=4000, timeout_ms=5000)
-    return outs, st, n_paths[0]
+    def make(site):
+        def harness(ctx):
+            h = SymH(ctx, None)
+            vals = symbols(h, template)
+            src = instantiate(h, template, vals)
+            ctx.opts["set_order_site"] = -1
+            ctx.set_events = 0
+            m0 = loader.load(fake_skia=True)
+            try:
+                out0 = convert_with(m0, src, **kw)
+            finally:
+                loader.unload(m0)
+            stats["events"] = max(stats["events"], ctx.set_events)
+            if site is None:
+                return out0
+            ctx.opts["set_order_site"] = site
+            ctx.set_events = 0
+            m1 = loader.load(fake_skia=True)
+            try:
+                out1 = convert_with(m1, src, **kw)
+            finally:
+                loader.unload(m1)
+            if out0.startswith("EXC:") or out1.startswith("EXC:"):
+                h.check(out0 == out1, "error_text_depends_on_set_iteration_order", detail=(out0[:200], out1[:200]))
+            else:
+                outcheck.same_document(h, out0, out1, "output_depends_on_set_iteration_order")
+            return out1
+
+        return harness
+
+    C.explore(make(None), opts=dict(opts), max_paths=3, timeout_ms=5000)
+    for k in range(stats["events"]):
+        st = C.explore(make(k), opts=dict(opts), max_paths=40, timeout_ms=10000)
+        for key in ("paths", "queries", "solver_s", "checks"):
+            stats[key] += st[key]
+        stats["unknown"] += st["unknown_check"]
+        for f in st["failures"]:
+            f["site"] = k
+            stats["failures"].append(f)
+        stats["inconclusive"] += [x for x in st["inconclusive"] if "truncated" not in x]
+    return stats
 
 
 def run_history_case(a, b):
@@ -100,33 +136,12 @@ def run_case(case, tier):
         "validated": 0, "nontrivial": 0, "vacuity_twins": 0, "vacuity_twins_violated": 0, "functions": [], "sample": None, "extra": {},
     }
     if case["kind"] in ("order", "order_error_message"):
-        if case["kind"] == "order_error_message":
-            # the text of the 'Unable to convert' error lists violations: set iteration order must not show
-            pool_text = pool.UNSUPPORTED["text"]
-            name = "unsupported:text"
-            import checks.c16 as me
-
-            orig = me.concrete_doc
-            me.concrete_doc = lambda n: orig_text(pool_text)
-            try:
-                outs, st, n = run_order_case(name, {})
-            finally:
-                me.concrete_doc = orig
-        else:
-            outs, st, n = run_order_case(case["doc"], case["kw"])
-        res["paths"] = n
-        res["nontrivial"] = n
-        res["checks"] = n
-        res["inconclusive"] = list(st["inconclusive"])
-        res["sample"] = {"doc": case.get("doc"), "order_paths": n, "distinct_outputs": len(outs), "decisions_of_first": next(iter(outs.values()))[:20] if outs else []}
-        if len(outs) > 1:
-            items = list(outs.items())
-            res["failures"].append({
-                "label": "output_depends_on_set_iteration_order",
-                "inputs": {},
-                "detail": {"decisions": [items[0][1], items[1][1]], "a": items[0][0][:300], "b": items[1][0][:300], "choices": {}},
-                "decisions": items[1][1],
-            })
+        name = "unsupported:text" if case["kind"] == "order_error_message" else case["doc"]
+        st = run_order_case(name, case.get("kw", {}))
+        res.update({k: st[k] for k in ("paths", "queries", "solver_s", "checks", "failures", "inconclusive")})
+        res["unknown_check"] = st["unknown"]
+        res["nontrivial"] = st["paths"]
+        res["sample"] = {"doc": name, "set_iteration_events": st["events"], "order_paths": st["paths"]}
         return res
     out_after, out_fresh = run_history_case(case["a"], case["b"])
     res["paths"] = 2
@@ -179,6 +194,11 @@ def replay(case, failure):
             outs.append(p.stdout)
         return {"reproduced": outs[0] != outs[1], "detail": "real package, one process vs fresh process"}
     text = orig_text(pool.UNSUPPORTED["text"]) if case["kind"] == "order_error_message" else concrete_doc(case["doc"])
+    if failure.get("inputs"):
+        # numbers of the solver's witness
+        import fractions, re as _re
+        tpl = pool.UNSUPPORTED["text"] if case["kind"] == "order_error_message" else pool.family_templates("thorough")[case["doc"]]
+        text = _re.sub(r"\{([A-Za-z_][A-Za-z0-9_]*)\}", lambda m: "" if m.group(1) == "rootattrs" else repr(float(fractions.Fraction(failure["inputs"].get(m.group(1), "2.5")))), tpl)
     kw = case.get("kw", {})
     code = (
         "import sys, json\nfrom picosvg.svg import SVG\n"
@@ -201,11 +221,10 @@ def describe(tier):
             "over permutations (<=3 elements) or rotations+reversals (more), including module-level tables such as the stop field "
             "tuple; the converted string (or the error text) must be the same on every order path.  Process history: convert(B) "
             "after convert(A) in one loaded module instance vs a fresh instance, all ordered pairs of 6 documents (shared module "
-            "state: lru_cache on SVG._inherited_attrib, class attributes, the _SVG_ARG_FIXUPS defaultdict).  Numbers are concrete "
-            "(real Skia): this property quantifies over orders and histories.  Refutations are replayed on the real package "
+            "state: lru_cache on SVG._inherited_attrib, class attributes, the _SVG_ARG_FIXUPS defaultdict).  Order cases run on the symbolic templates (numbers universally quantified, abstract Skia); history cases use concrete numbers and real Skia.  Refutations are replayed on the real package "
             "across PYTHONHASHSEED values / processes."
         ),
-        "bounds": {"documents": DOCS, "orders": "all permutations of sets with <= 3 elements, 2n rotations/reversals otherwise; order fixed per set object until mutated", "histories": "all 30 ordered pairs"},
+        "bounds": {"documents": DOCS, "orders": "one iteration event at a time (every other set in insertion order): all permutations of sets with <= 3 elements, 2n rotations/reversals otherwise; order fixed per set object until mutated; interactions between two permuted sets are not explored", "histories": "all 30 ordered pairs"},
         "outside": ["nondeterminism inside lxml / Skia", "OS-level process effects", "dict iteration (insertion ordered by language guarantee)"],
         "stubs": ["set/frozenset/set displays -> order-aware SxSet (sx/loader.py)"],
         "assumptions": ["dicts are insertion ordered", "sorted() of a set is order independent"],
